@@ -146,7 +146,8 @@ func registerSched() {
 	run.Register(&SchedCheck{Id: "C07", PodGroupLag: true, Profile: "fairness", Quick: 1200, Thorough: 12000,
 		Gen: func(seed int64, idx int, tier string) *spec.Case {
 			if idx%3 == 1 { // a third of the cases: department-contention clusters (uneven trees, reclaim in every case)
-				c := gen.Contention(seed, idx, tier)
+				// half of them with quotas that add up to 1-3 devices less than the capacity (fair shares above the quotas)
+				c := gen.ContentionWith(seed, idx, tier, gen.ContentionOpts{Surplus: []int{0, 1, 0, 2, 0, 3}[(idx/3)%6]})
 				c.World.Closed = idx%2 == 0 // half of them as open systems (evicted pods are gone)
 				return c
 			}
